@@ -69,6 +69,8 @@ class World:
         for k, v in self.d.items():
             if k == name or k.startswith(name + ".") or k.startswith(name + "["):
                 continue
+            if k.startswith("N:") and (k[2:] == name or k[2:].startswith(name + ".") or k[2:].startswith(name + "[")):
+                continue
             if k.startswith("?") and pat.search(k):
                 # the test was decided on the old value: keep it as a control-dependence fact ("passed through")
                 if not k.startswith("?was:"):
@@ -224,10 +226,15 @@ class WorldFlow(Flow):
                 return w2
             tok = self.const_token(value)
             if tok is not None:
-                return w2.set(target, [tok])
+                return w2.set(target, [tok]).set("N:" + target, [NONE] if tok == "None" else [NOTNONE])
             src = dotted(value)
-            if src is not None and w.get(src) is not None:
-                return w2.set(target, w.get(src))
+            if src is not None and (w.get(src) is not None or w.get("N:" + src) is not None):
+                w3 = w2
+                if w.get(src) is not None:
+                    w3 = w3.set(target, w.get(src))
+                if w.get("N:" + src) is not None:
+                    w3 = w3.set("N:" + target, w.get("N:" + src))
+                return w3
             if isinstance(value, ast.Call):
                 tgt = self.prog.resolve_call(value, self.mod, self.cls)
                 # a freshly constructed model: verdict unknown
@@ -391,24 +398,24 @@ class WorldFlow(Flow):
 
     def _restrict_const(self, state, key, tok, positive):
         def f(w: World):
+            if tok == "None":
+                nk = "N:" + key
+                cur = w.get(nk)
+                want = NONE if positive else NOTNONE
+                if cur is not None and want not in cur:
+                    return None
+                w = w.set(nk, [want])
+                cv = w.get(key)
+                if cv is not None and all(not t.startswith("opt") and t not in (OPT, INF, OTHER) for t in cv):
+                    new = frozenset(t for t in cv if (t == "None") == positive)
+                    if not new:
+                        return None
+                    w = w.set(key, new)
+                return w
             cur = w.get(key)
             if cur is None:
-                if tok == "None":
-                    return w.set(key, [NONE] if positive else [NOTNONE])
-                if positive:
-                    return w.set(key, [tok])
-                return w
-            if tok == "None":
-                if positive:
-                    new = frozenset(t for t in cur if t in ("None", NONE))
-                else:
-                    new = frozenset(t for t in cur if t not in ("None", NONE))
-            elif positive:
-                new = frozenset(t for t in cur if t == tok or t == NOTNONE)
-                if NOTNONE in new:
-                    new = frozenset([tok])
-            else:
-                new = frozenset(t for t in cur if t != tok)
+                return w.set(key, [tok]) if positive else w
+            new = frozenset(t for t in cur if (t == tok) == positive)
             return w.set(key, new) if new else None
         return self._map(state, f)
 
